@@ -2,6 +2,7 @@ SPECIFICATION Spec
 CONSTANTS
   Users = {"carol", "root"}
   Configured = {"root"}
+  AutoAdmins = {"carol"}
   Period = 5
   MaxT = 17
   Steps = {1, 4, 5}
